@@ -448,6 +448,10 @@ class Interp:
         if key in self.decisions:
             self.used_decisions.append(key)
             return self.decisions[key]
+        if getattr(self, "_assuming", False):
+            self.decisions[key] = True
+            self.used_decisions.append(key)
+            return True
         raise Fork(key)
 
     # ---------------------------------------------------------------- functions
@@ -553,7 +557,17 @@ class Interp:
         elif isinstance(st, ast.Break):
             raise _Break()
         elif isinstance(st, ast.Assert):
-            v = self.eval(st.test, env)
+            # a conjunction of comparisons that is asserted holds on every continuing path: its undecided atoms are assumed true
+            # instead of being explored both ways (the failing side only raises)
+            conj = not any(isinstance(n, (ast.Or, ast.Not, ast.Invert, ast.BitOr, ast.IfExp, ast.NotEq)) for n in ast.walk(st.test)) and not any(
+                isinstance(n, ast.Call) and (_dotted(n.func) or "") not in ("np.all", "all", "np.array", "len", "abs", "np.abs", "np.sum", "sum")
+                and not (isinstance(n.func, ast.Attribute) and n.func.attr in ("all", "sum")) for n in ast.walk(st.test))
+            prev = getattr(self, "_assuming", False)
+            self._assuming = conj
+            try:
+                v = self.eval(st.test, env)
+            finally:
+                self._assuming = prev
             self.asserts.append((canon(v) if not isinstance(v, bool) else ast.unparse(st.test), st.lineno))
             if v is False:
                 raise Abort("assert False")
@@ -902,6 +916,10 @@ class Interp:
             return -self.to_rat(v, e)
         if isinstance(e.op, ast.UAdd):
             return self.to_rat(v, e)
+        if isinstance(e.op, ast.Invert) and isinstance(v, NMask):
+            return NMask([(not t, n) for t, n in v.segs])
+        if isinstance(e.op, ast.Invert) and isinstance(v, bool):
+            return not v
         raise Unsupported("unary op", e)
 
     def e_BoolOp(self, e, env):
@@ -925,6 +943,17 @@ class Interp:
         return self.binop(e.op, a, b, e)
 
     def binop(self, op, a, b, node):
+        if isinstance(op, (ast.BitAnd, ast.BitOr)) and (isinstance(a, (NMask, bool)) and isinstance(b, (NMask, bool))):
+            f = (lambda x, y: x and y) if isinstance(op, ast.BitAnd) else (lambda x, y: x or y)
+            if isinstance(a, bool) and isinstance(b, bool):
+                return f(a, b)
+            if isinstance(a, bool):
+                return NMask([(f(a, t), n) for t, n in b.segs])
+            if isinstance(b, bool):
+                return NMask([(f(t, b), n) for t, n in a.segs])
+            if len(a.segs) == len(b.segs) and all(canon(x[1]) == canon(y[1]) for x, y in zip(a.segs, b.segs)):
+                return NMask([(f(x[0], y[0]), x[1]) for x, y in zip(a.segs, b.segs)])
+            raise Unsupported("boolean arrays of different shapes", node)
         if isinstance(a, NArr) or isinstance(b, NArr):
             return self.narr_binop(op, a, b, node)
         if isinstance(op, ast.Add):
@@ -1215,6 +1244,24 @@ class Interp:
         raise Unsupported(f"slice of {canon(obj)}", node)
 
     def getitem(self, obj, key, node):
+        if isinstance(key, NArr) and _segs(obj) is not None:
+            # fancy indexing with an array of literal indices into a sequence whose runs have literal lengths
+            flat = []
+            for f, n in _segs(obj):
+                n = self.to_rat(n, node)
+                if not n.is_const():
+                    raise Unsupported("index array into a sequence of symbolic length", node)
+                flat += [f] * n.as_int()
+            out = []
+            for f, n in key.segs:
+                f, n = self.to_rat(f, node), self.to_rat(n, node)
+                if not (f.is_const() and f.const_value().denominator == 1):
+                    raise Unsupported("symbolic index array", node)
+                i = int(f.const_value())
+                if not -len(flat) <= i < len(flat):
+                    raise Abort("index out of range")
+                out.append((flat[i], n))
+            return NArr(out)
         if isinstance(obj, PDict):
             k = self.dkey(key, node)
             if k not in obj.d:
